@@ -222,6 +222,35 @@ def refers_to_static(facts, body, du, op, static):
     return set(sl.params) == {1}
 
 
+def const_duration_ns(body, du, op):
+    """Nanoseconds of a Duration operand that is a compile-time constant: `Duration::from_millis(1)` and the like with a
+    literal argument, or a named constant of the crate (the driver evaluates it: "Duration { secs: S, nanos: ..(N) }");
+    None for anything computed."""
+    import re
+    from analysis.table import describe_val
+    from analysis.flow import op_local
+    cur = op
+    for _ in range(6):
+        if cur is None:
+            return None
+        if cur.get("k") == "const":
+            m = re.search(r"Duration \{+ secs: (\d+)_u64, nanos: [\w:]*\((\d+)_u32", cur.get("eval") or "")
+            return int(m.group(1)) * 10**9 + int(m.group(2)) if m else None
+        l = op_local(cur)
+        ds = du.defs.get(l, []) if l is not None else []
+        if len(ds) == 1 and ds[0][2] == "assign" and ds[0][3]["rhs"]["k"] == "use":
+            cur = ds[0][3]["rhs"]["a"]
+            continue
+        break
+    d = describe_val(body, du, op)
+    if isinstance(d, tuple) and d and d[0] == "call" and str(d[1]).startswith("std::time::Duration::from_") and len(d[2]) == 1 and d[2][0][0] == "const":
+        try:
+            return int(d[2][0][1]) * {"from_secs": 10**9, "from_millis": 10**6, "from_micros": 10**3, "from_nanos": 1}[d[1].rsplit("::", 1)[1]]
+        except (ValueError, KeyError, TypeError):
+            return None
+    return None
+
+
 def arg_by_name(facts, t, name, default=0):
     """The operand a call passes for the callee's parameter called `name` (a `self` receiver added in front, or a
     reordering of parameters, shifts positions but not names); position `default` when the callee has no such name."""
